@@ -271,23 +271,28 @@ impl Variant {
                 Self::VDouble(d_right) => checked_double(f_left as f64 - d_right),
                 Self::VInteger(i_right) => checked_single(f_left - i_right as f32),
                 Self::VLong(l_right) => checked_single(f_left - l_right as f32),
-                _ => other.minus(self).and_then(|x| x.negate()),
+                _ => Err(VariantError::TypeMismatch),
             },
             Self::VDouble(d_left) => match other {
+                Self::VSingle(f_right) => checked_double(d_left - f_right as f64),
                 Self::VDouble(d_right) => checked_double(d_left - d_right),
                 Self::VInteger(i_right) => checked_double(d_left - i_right as f64),
                 Self::VLong(l_right) => checked_double(d_left - l_right as f64),
-                _ => other.minus(self).and_then(|x| x.negate()),
+                _ => Err(VariantError::TypeMismatch),
             },
             Self::VInteger(i_left) => match other {
+                Self::VSingle(f_right) => checked_single(i_left as f32 - f_right),
+                Self::VDouble(d_right) => checked_double(i_left as f64 - d_right),
                 Self::VInteger(i_right) => checked_integer(i_left.checked_sub(i_right)),
                 Self::VLong(l_right) => checked_long((i_left as i64).checked_sub(l_right)),
-                _ => other.minus(self).and_then(|x| x.negate()),
+                _ => Err(VariantError::TypeMismatch),
             },
             Self::VLong(l_left) => match other {
+                Self::VSingle(f_right) => checked_single(l_left as f32 - f_right),
+                Self::VDouble(d_right) => checked_double(l_left as f64 - d_right),
                 Self::VLong(l_right) => checked_long(l_left.checked_sub(l_right)),
                 Self::VInteger(i_right) => checked_long(l_left.checked_sub(i_right as i64)),
-                _ => other.minus(self).and_then(|x| x.negate()),
+                _ => Err(VariantError::TypeMismatch),
             },
             _ => Err(VariantError::TypeMismatch),
         }
